@@ -303,6 +303,8 @@ class RF:
         return as_rf(o) - self
 
     def __mul__(self, o) -> "RF":
+        if not isinstance(o, (RF, int, float, Fraction)):
+            return NotImplemented
         o = as_rf(o)
         return RF(self.n * o.n, self.d * o.d)
 
